@@ -1739,9 +1739,11 @@ fn gen_host(gg: &gen::GrammarGen, rng: &mut Rng, depth: usize) -> String {
             }
             3 if depth > 0 => s.push_str(&format!("{w}({} {})\n", gen_host(gg, rng, depth - 1), rng.pick(&WORDS))),
             4 => s.push_str(&format!("# note {w}\n")),
-            5 if depth > 0 => s.push_str(&format!("$tmpl`{}` ", gen_tmpl(gg, rng, depth - 1).replace('`', "'"))),
-            6 => s.push_str(&format!("$stmt`{}` ", gen_stmt_locals(rng, 1).replace('`', "'"))),
-            7 if depth > 0 => s.push_str(&format!("$host`{}` ", gen_host(gg, rng, depth - 1).replace('`', "'"))),
+            // (content with or without leading white space: with it, the content node and the injected layer's
+            // first node do not start at the same byte)
+            5 if depth > 0 => s.push_str(&format!("$tmpl`{}{}` ", *rng.pick(&["", "", " ", "\n"]), gen_tmpl(gg, rng, depth - 1).replace('`', "'"))),
+            6 => s.push_str(&format!("$stmt`{}{}` ", *rng.pick(&["", " ", "\n", "  "]), gen_stmt_locals(rng, 1).replace('`', "'"))),
+            7 if depth > 0 => s.push_str(&format!("$host`{}{}` ", *rng.pick(&["", " ", "\n", " "]), gen_host(gg, rng, depth - 1).replace('`', "'"))),
             8 if rng.chance(1, 2) => {
                 if rng.chance(1, 2) {
                     s.push_str(&format!("two($a`{w} = 1;` $b`{} = 2;`) ", rng.pick(&WORDS)))
